@@ -1,8 +1,13 @@
-import Mav.Proofs.Node2
+import Mav.Proofs.NodeLive
 /-
-  C12 — Close terminates and releases everything. Property theorems only (safety part; see DESIGN.md for what the
-  harness decides on real runs: Close returns within a bound, goroutines, ports, Close count of custom transports).
-  Model: Mav/Model/Node.lean.
+  C12 — Close terminates and releases everything. Property theorems only.
+  Model: Mav/Model/Node.lean (after `fix: close the transport before waiting for the writer …`).
+  Safety: nothing is sent on the closed event channel; everything has ended when it is closed.
+  Termination: a closing node is never stuck (`close_never_stuck`), and once the node loop has seen `terminate` and the
+  providers have returned every state-changing step lowers a natural-number measure, so at most `mu s` of them can follow
+  (`close_bounded`), under every interleaving. What remains an assumption is fairness of the Go scheduler / `select` towards
+  the node loop and the providers (they must get to see `terminate`), and that a transport's blocked Read / Write returns
+  once the transport is closed (steps rReadClosed / wFail). The harness observes the real thing (closecheck scenarios).
 -/
 namespace Mav.C12
 open Mav Nd
@@ -47,5 +52,28 @@ theorem no_dispatch_after_loop {s s' : St} (h : Step s s') (hn : s.npc ≠ .loop
 /-- **C12 (closing is irrevocable and needs Close).** The node leaves its loop only after `terminate` was closed. -/
 theorem epilogue_needs_terminate (inputs : Cid → List RdRes) (s : St) (hr : Reach (init inputs) s) (h : s.npc ≠ .loop) :
     s.terminate = true := (reach_struct inputs s hr).1.g3 h
+
+/-- **C12 (Close is never stuck).** In every reachable state in which `Close` has been called and the event channel is not
+    closed yet — whatever readers, writers, providers, `Channel.run`s and the application are doing, consumer running or
+    not — some goroutine can take a step, and that step lowers the measure `mu`. No deadlock on the way to `close(chEvent)`. -/
+theorem close_never_stuck (inputs : Cid → List RdRes) (s : St) (hr : Reach (init inputs) s)
+    (ht : s.terminate = true) (he : s.evClosed = false) : ∃ s', Step s s' ∧ mu s' < mu s :=
+  close_progress inputs s hr ht he
+
+/-- **C12 (every step of the shutdown makes progress).** After the node loop has left its loop and the providers have
+    returned, every step either changes nothing (a repeated Close) or lowers the measure. -/
+theorem shutdown_step_decreases (inputs : Cid → List RdRes) (s s' : St) (hr : Reach (init inputs) s) (h : Step s s')
+    (ht : s.terminate = true) (hn : s.npc ≠ .loop) (hp : s.provDone = true) : s' = s ∨ mu s' < mu s :=
+  step_decreases h (reach_struct inputs s hr).1 (reach_struct inputs s hr).2 (reach_shape inputs s hr) ht hn hp
+
+/-- **C12 (Close terminates).** … hence at most `mu s` state-changing steps can follow, under every interleaving: together
+    with `close_never_stuck` the shutdown reaches `close(chEvent)` and `Close` returns. -/
+theorem close_bounded (inputs : Cid → List RdRes) (s s'' : St) (n : Nat) (hr : Reach (init inputs) s)
+    (ht : s.terminate = true) (hn : s.npc ≠ .loop) (hp : s.provDone = true) (hc : Chain s n s'') : n ≤ mu s :=
+  closing_bounded inputs s n s'' hc hr ht hn hp
+
+/-- with the OLD order of `Channel.run` (writer first, transport afterwards) a writer blocked in a transport that only returns
+    when closed has no enabled step at `bRecvW`: the progress proof needs `rwcClosed` there (Shape.l2), which the fix provides -/
+example : rwcMust .bRecvW = true ∧ rwcMust .bTermW = true := ⟨rfl, rfl⟩
 
 end Mav.C12
